@@ -554,8 +554,16 @@ impl BytecodeBuilder {
     }
 
     /// Reserve a range of consecutive registers
-    pub fn reserve_registers(&mut self, count: u8) -> Result<Register, JsError> {
-        self.registers.reserve_range(count)
+    ///
+    /// Takes the element count as `usize` so that callers cannot truncate a long
+    /// list to `u8` before the limit is checked.
+    pub fn reserve_registers(&mut self, count: usize) -> Result<Register, JsError> {
+        if count > u8::MAX as usize {
+            return Err(JsError::internal_error(
+                "Too many registers needed (max 255)",
+            ));
+        }
+        self.registers.reserve_range(count as u8)
     }
 }
 
